@@ -296,6 +296,37 @@ def run(ctx: Ctx) -> Result:
     res.sample({'probe': cases[-1][0], 'nesting': list(cases[-1][3]), 'script': cases[-1][4].hex()[:160], 'impl': outs[-1][:160]})
     res.exhaustive = True
     res.stats['search'] = 'the behavioural table is measured on the implementation alone: nested observable vs top-level observable'
+    # contracts supplied to the run stay reachable from plugin code too: a check_template plugin that looks its contract up in
+    # tape.contracts (as the readme tells plugin authors to do) finds it at every nesting level
+    def plugin_contract():
+        F = vmrun.impl.functions()
+        class Appr:
+            def abi(self, args): return [b'\x01']
+        seen = []
+        def plug(tape, stack, cache):
+            ok = b'C' in getattr(tape, 'contracts', {})
+            seen.append(ok)
+            return ok
+        probe = push(b'f1') + op('CHECK_TEMPLATE') + b'\x01' + wr(b'Z')
+        with vmrun.Env(vmrun.Cfg()) as env:
+            for nest in nestings:
+                if any(c in ('MERKLEVAL', 'TAPROOT') for c in nest) and len(nest) > 2: continue
+                b = probe
+                for cname in reversed(nest):
+                    b = CONTEXTS[cname](b)
+                if len(b) > 60000: continue
+                res.note_case(('plugin-contract', nest))
+                del seen[:]
+                try:
+                    _, _, cache_ = F.run_script(b, {'sigfield1': b'f1-long'}, {b'C': Appr()}, {}, {'check_template': [plug]})
+                    got = cache_.get(b'Z')
+                except BaseException as e:
+                    got = 'RAISED:' + type(e).__name__
+                if (got != [b'\xff'] or seen != [True]) and len(res.violations) < 10:
+                    res.violations.append({'input': {'probe': 'check_template plugin that looks up contract C in tape.contracts', 'nesting': list(nest), 'script': b.hex()},
+                                           'expected': 'the plugin runs once, finds the contract, CHECK_TEMPLATE yields ff', 'observed': f'Z = {got}, plugin saw contract: {seen}',
+                                           'how_to_run': './check C09 --tier quick'})
+    vmrun.in_big_thread(plugin_contract)
     return res
 
 
@@ -303,6 +334,7 @@ def replay(ctx: Ctx, payload) -> bool:
     inp = payload['input']
     if 'probe' not in inp: return False
     PR = probes()
+    if inp['probe'] not in PR: return False
     mod, cache, pb, keys = PR[inp['probe']]
     cfg = vmrun.Cfg(); mod(cfg)
     o = vmrun.in_big_thread(vmrun.run_impl, cfg, cache, bytes.fromhex(inp['script']))
